@@ -286,7 +286,10 @@ pub fn trace(seed: u64, n: usize) -> Vec<J> {
         let mut chunks = Vec::new();
         let mut w = pre;
         while w < content.len() { let k = rng.gen_range(1..=std::cmp::min(4, content.len() - w)); chunks.push(k); w += k; }
-        let pauses: Vec<u64> = chunks.iter().map(|_| rng.gen_range(0..300)).collect();
+        // a pause is a sleep of up to 300 microseconds or -- for two appends in a row -- a spin of a few hundred nanoseconds to a few microseconds (encoded as
+        // 1000000 + iterations): the second append then falls right behind the read that consumed the first one, where a reader that has just seen the
+        // end of the file is most likely to be between two of its steps
+        let pauses: Vec<u64> = chunks.iter().map(|_| if rng.gen_bool(0.5) { 1_000_000 + rng.gen_range(0..3000) } else { rng.gen_range(0..300) }).collect();
         let done = Arc::new(AtomicBool::new(false));
         let written = Arc::new(AtomicUsize::new(pre));
         let (d2, w2, c2, p2, ch2) = (done.clone(), written.clone(), content.clone(), path.clone(), chunks.clone());
@@ -294,7 +297,7 @@ pub fn trace(seed: u64, n: usize) -> Vec<J> {
             let mut f = OpenOptions::new().append(true).open(&p2).unwrap();
             let mut w = w2.load(Ordering::SeqCst);
             for (k, pause) in ch2.iter().zip(pauses.iter()) {
-                std::thread::sleep(std::time::Duration::from_micros(*pause));
+                if *pause >= 1_000_000 { for i in 0..(*pause - 1_000_000) { std::hint::black_box(i); } } else { std::thread::sleep(std::time::Duration::from_micros(*pause)); }
                 // publish the new length before the bytes become visible: an upper bound for the reader
                 w2.store(w + k, Ordering::SeqCst);
                 f.write_all(&c2[w..w + k]).unwrap();
